@@ -1,8 +1,9 @@
 package main
 
 import (
+	"fmt"
+	"sort"
 	"upfcheck/internal/core"
-	"upfcheck/internal/rules"
 )
 
 func main() {
@@ -10,5 +11,21 @@ func main() {
 	if err != nil {
 		panic(err)
 	}
-	rules.DumpTables(p)
+	cl := p.GoroutineClasses()
+	ops := p.ChanOps()
+	alias := p.ChanAlias(ops)
+	for _, o := range ops {
+		id := o.Chan
+		if a, ok := alias[id]; ok {
+			id = a
+		}
+		cs := core.ClassesOf(cl, o.Fn)
+		fmt.Printf("%-6s %-60s blocking=%-5v multi=%-5v cap=%-4d %-50s %v %s\n", o.Kind, id, o.Blocking, o.Multi, o.Cap, core.FnName(o.Fn), cs, p.Pos(o.Instr.Pos()))
+	}
+	var names []string
+	for n := range cl {
+		names = append(names, n)
+	}
+	sort.Strings(names)
+	fmt.Println(names)
 }
